@@ -59,7 +59,7 @@ def _run(case, mirror, fee_obj=None):
         a, qty, bid, ask = o['asset'], o['qty'], o['bid'], o['ask']
         if mirror:
             qty, bid, ask = -qty, ask, bid          # the same price on the other side
-        orders.append((a, qty, bid, ask, o.get('pid', 'p')))
+        orders.append((a, qty, bid, ask, o.get('pid', 'p'), o.get('order_commission', 0.0)))
         table[(t1, a)] = (bid, ask)
         table[(t0, a)] = (bid * 1.37, ask * 1.37)
         other[a] = (bid * 0.61, ask * 0.61)
@@ -72,8 +72,8 @@ def _run(case, mirror, fee_obj=None):
         b.create_portfolio(pid)
         kit.tap(b.portfolios[pid], log, pid)
     by_id = {}
-    for a, qty, bid, ask, pid in orders:
-        od = q.Order(t0, a, qty)
+    for a, qty, bid, ask, pid, ocomm in orders:
+        od = q.Order(t0, a, qty, commission=ocomm) if ocomm else q.Order(t0, a, qty)
         by_id[od.order_id] = (a, qty, bid, ask, pid)
         b.submit_order(pid, od)
     if any(b.portfolios[p].cash != 0.0 for p in pids) or log:
@@ -155,6 +155,8 @@ def run_case(case):
     cls.append('fee_zero_model' if case['fee'] is None else ('fee_default' if case['fee'] == 'default' else (
         'fee_rate_positive' if rate > 0 else 'fee_rate_zero')))
     cls.append('orders_%d' % len(case['orders']))
+    if any(o.get('order_commission') for o in case['orders']):
+        cls.append('order_with_commission_attribute')
     if len(set(o['asset'] for o in case['orders'])) < len(case['orders']):
         cls.append('same_asset_both_sides')
     if len(set(o.get('pid', 'p') for o in case['orders'])) > 1:
@@ -187,7 +189,10 @@ def cases(draw):
         bid, ask = (other, p) if draw(st.booleans()) else (p, other)
         if draw(st.sampled_from([False] * 9 + [True])):
             bid = ask = p                                   # locked quote
-        orders.append({'asset': a, 'qty': qty, 'bid': bid, 'ask': ask})
+        od = {'asset': a, 'qty': qty, 'bid': bid, 'ask': ask}
+        if draw(st.sampled_from([False] * 5 + [True])):
+            od['order_commission'] = draw(st.sampled_from([12.5, 0.01, -3.0, 1000.0]))
+        orders.append(od)
     if draw(st.sampled_from([False, False, True])):
         o = orders[0]
         qty2 = draw(st.integers(1, 10))
